@@ -211,8 +211,11 @@ type StructDef struct {
 	// PanicInit: the type's InitDefault panics (user code failing while frugal runs it under its registration lock).
 	// Such definitions are neither Valid nor Rejected; only the concurrency and history profiles call on them.
 	PanicInit bool
-	Unknown   bool // has the _unknownFields holder
-	Decoys    int  // bit0 unexported field, bit1 untagged exported field, bit2 embedded struct
+	// LateInit: the type's InitDefault panics while the corpus variable InitNotReady is set (configuration that is
+	// loaded after the start-up warm-up). The harness sets it only around legacy warm-up calls.
+	LateInit bool
+	Unknown  bool // has the _unknownFields holder
+	Decoys   int  // bit0 unexported field, bit1 untagged exported field, bit2 embedded struct
 	// Invalid: non-empty for an invalid-by-construction definition (C13): the defect class.
 	Invalid string
 	// RawFields replaces the field list in the emitted source for invalid definitions.
